@@ -17,7 +17,8 @@ for m in muts:
         continue
     try:
         open(p, 'w').write(src.replace(m['old'], m['new']))
-        r = subprocess.run([os.path.join(ROOT, 'check'), m['property']], capture_output=True, text=True, cwd=ROOT)
+        r = subprocess.run([os.path.join(ROOT, 'check'), m['property']], capture_output=True, text=True, cwd=ROOT,
+                           env=dict(os.environ, PYVC_EVIDENCE_DIR='/tmp/pyvc-mutant-evidence'))
     finally:
         subprocess.run(['git', '-C', '/repo', 'checkout', '--', '.'])
     last = r.stdout.strip().splitlines()[-1] if r.stdout.strip() else r.stderr[-300:]
